@@ -198,7 +198,7 @@ fn graph_case(item: u64, rng: &mut Rng, acc: &mut Acc, quick: bool) {
 }
 
 pub fn run(ctx: &Ctx) -> i32 {
-    let n_items = ctx.n(150, 3000);
+    let n_items = ctx.n(1000, 6000);
     let quick = ctx.quick();
     let acc = par_items(ctx, "C07", n_items, |item, rng, acc| graph_case(item, rng, acc, quick));
     let fin = Finish::new(
